@@ -1513,6 +1513,14 @@ void generate(const std::string &prop, Rng &wl, Rng &fl, Case &c)
   sk.typical_len = metrics ? 1500 : 400;
   sk.stall_cap   = 500;
   vsim::draw_run_config(fl, sk, c.rc);
+  // MultiRecordable fans setters out in an order that depends on processor addresses; with
+  // several processors the number of function boundaries crossed before a harness yield is
+  // therefore not a function of the run, so call-boundary preemption stays off in those runs
+  if (c.knob("nproc", 1) > 1)
+  {
+    c.rc.call_period = 0;
+    c.rc.p_call      = 0;
+  }
   c.rc.budget1 = 40000;
   c.rc.budget2 = 120000;
 }
